@@ -128,6 +128,21 @@ pub fn run_one(cache: &mut ParamCache, sc: &J, bits: bool, out: &mut dyn Write) 
         plonkrun::honest_run::<Blake>(cache, &shape, nproofs, seed)
     }?;
     let params = cache.get(shape.k).clone();
+    let mut run = run;
+    // the class "proof whose last byte is zero": prove again (fresh blinding) until the encoding of the last element ends in 0x00
+    if sc["seek_zero_tail"].as_bool().unwrap_or(false) {
+        for s in 1..4000u64 {
+            if matches!(&run.proof, Ok(p) if p.proof.last() == Some(&0)) {
+                break;
+            }
+            crate::rec::reset_run();
+            run.proof = if hash == "poseidon" {
+                plonkrun::prove::<Pos>(&params, &run.keys.pk, &run.circuits, shape.committed, &run.instances, seed + 7919 * s)
+            } else {
+                plonkrun::prove::<Blake>(&params, &run.keys.pk, &run.circuits, shape.committed, &run.instances, seed + 7919 * s)
+            };
+        }
+    }
     let p = match &run.proof {
         Ok(p) => p,
         Err(e) => return Err(format!("honest prover failed: {e}")),
@@ -179,6 +194,11 @@ pub fn run_one(cache: &mut ParamCache, sc: &J, bits: bool, out: &mut dyn Write) 
         emit(out, json!({"t":"trunc","at":"boundary","i":i+1}), false, true, true, &v);
         let v = vf(&ctx.proof[..*off + *len / 2]);
         emit(out, json!({"t":"trunc","at":"mid","i":i+1}), false, true, true, &v);
+    }
+    // B'. the last 1..3 bytes dropped (whatever they are)
+    for n in 1..=3usize {
+        let v = vf(&ctx.proof[..ctx.proof.len() - n]);
+        emit(out, json!({"t":"trunc","at":"tail","i":n,"last_byte":ctx.proof[ctx.proof.len() - 1]}), false, true, true, &v);
     }
     // C. appended bytes
     for n in [1usize, 32, 48] {
